@@ -462,6 +462,24 @@ pub fn eval_candidate<S: Sut>(
     c
 }
 
+/// Strict evaluation; when it fails with a class `Sut::lenient_for` accepts
+/// (and `past_known` is on), the same history is evaluated once more against
+/// the adjusted reference and attached as `retry`.
+pub fn eval_with_retry<S: Sut>(
+    cfg: &S::Cfg,
+    start: &Start<S::Op>,
+    hist: &[&HOp<S::Op>],
+    mode: &Mode<S::Op>,
+    lenient: bool,
+    past_known: bool,
+) -> Cand {
+    let mut c = eval_candidate::<S>(cfg, start, hist, mode, lenient);
+    if !lenient && past_known && c.fail.as_ref().is_some_and(|f| S::lenient_for(&f.kind)) {
+        c.retry = Some(Box::new(eval_candidate::<S>(cfg, start, hist, mode, true)));
+    }
+    c
+}
+
 fn run_ops<S: Sut>(cfg: &S::Cfg, start: &Start<S::Op>, hist: &[&HOp<S::Op>], lenient: bool) -> Result<Live<S>, Fail> {
     let mut live = start_live::<S>(cfg, start, lenient)?;
     for op in hist {
@@ -865,6 +883,9 @@ pub struct Explore<S: Sut> {
     pub mode: Mode<S::Op>,
     /// 0 = skip the deep battery phase
     pub deep_depth: usize,
+    /// keep searching behind histories that fail with a recorded finding the
+    /// Sut can describe exactly (`Sut::lenient_for` / `set_lenient`)
+    pub past_known: bool,
 }
 
 #[derive(Clone, Debug, Default, Serialize)]
@@ -883,6 +904,8 @@ pub struct ExploreOut {
     pub deep_evals: u64,
     pub violations: u64,
     pub known_findings: u64,
+    /// states kept behind a recorded finding (evaluated against the adjusted reference)
+    pub past_known_states: u64,
 }
 
 fn hist_json<S: Sut>(x: &Explore<S>, hist: &[u16]) -> Value {
@@ -891,6 +914,7 @@ fn hist_json<S: Sut>(x: &Explore<S>, hist: &[u16]) -> Value {
 }
 
 fn make_violation<S: Sut>(part: &str, x: &Explore<S>, hist: &[u16], f: &Fail, phase: &str) -> Violation {
+    let lenient = phase.starts_with(PAST_KNOWN);
     let last = hist
         .last()
         .map(|i| hop_kind::<S>(&x.alphabet[*i as usize]))
@@ -926,11 +950,15 @@ fn make_violation<S: Sut>(part: &str, x: &Explore<S>, hist: &[u16], f: &Fail, ph
             "start": x.start,
             "start_label": x.start_label,
             "ops": ops,
+            "lenient": lenient,
             "fail_kind": format!("{phase}{}", f.kind),
             "detail": f.detail,
         }),
     }
 }
+
+/// Phase prefix of violations found behind a recorded finding.
+pub const PAST_KNOWN: &str = "past-known:";
 
 /// Level-synchronous search. Returns the outcome; counters and violations
 /// are added to `run`.
@@ -953,13 +981,13 @@ where
     };
     let t0 = Instant::now();
     let mut seen: HashSet<(u64, u64)> = HashSet::new();
-    // model state -> (discovery rank, first history reaching it)
-    let mut reps: BTreeMap<String, (usize, Vec<u16>)> = BTreeMap::new();
+    // model state -> (discovery rank, first history reaching it, evaluated against the adjusted reference)
+    let mut reps: BTreeMap<String, (usize, Vec<u16>, bool)> = BTreeMap::new();
     let mut crash = CrashTally::default();
     let mut execs = 0u64;
 
     // root
-    let root = eval_candidate::<S>(&x.cfg, &x.start, &[], &x.mode);
+    let root = eval_candidate::<S>(&x.cfg, &x.start, &[], &x.mode, false);
     out.light_evals += root.evals;
     crash.merge(&root.crash);
     execs += root.execs;
@@ -971,9 +999,9 @@ where
     }
     seen.insert(root.key);
     out.states += 1;
-    reps.insert(root.model_key.clone(), (0, vec![]));
+    reps.insert(root.model_key.clone(), (0, vec![], false));
     let root_key = root.key;
-    let mut frontier: Vec<Vec<u16>> = vec![vec![]];
+    let mut frontier: Vec<(Vec<u16>, bool)> = vec![(vec![], false)];
     out.frontier_sizes.push(1);
     let stop = AtomicBool::new(false);
     let mut samples_given = 0;
@@ -983,8 +1011,8 @@ where
             out.completed_depth = x.max_depth;
             break;
         }
-        let items: Vec<Vec<u16>> = std::mem::take(&mut frontier);
-        let results: Vec<Option<Vec<Cand>>> = util::par_map(items.clone(), util::n_threads(), |h| {
+        let items: Vec<(Vec<u16>, bool)> = std::mem::take(&mut frontier);
+        let results: Vec<Option<Vec<Cand>>> = util::par_map(items.clone(), util::n_threads(), |(h, lenient)| {
             if stop.load(Ordering::Relaxed) {
                 return None;
             }
@@ -996,38 +1024,62 @@ where
             for oi in 0..x.alphabet.len() {
                 let mut ops: Vec<&HOp<S::Op>> = h.iter().map(|i| &x.alphabet[*i as usize]).collect();
                 ops.push(&x.alphabet[oi]);
-                v.push(eval_candidate::<S>(&x.cfg, &x.start, &ops, &x.mode));
+                v.push(eval_with_retry::<S>(&x.cfg, &x.start, &ops, &x.mode, lenient, x.past_known));
             }
             Some(v)
         });
         let mut complete = true;
-        for (h, r) in items.iter().zip(results.into_iter()) {
+        for ((h, parent_lenient), r) in items.iter().zip(results.into_iter()) {
             let Some(cands) = r else {
                 complete = false;
                 continue;
             };
-            for (oi, c) in cands.into_iter().enumerate() {
+            for (oi, mut c) in cands.into_iter().enumerate() {
                 out.transitions += 1;
                 out.light_evals += c.evals;
                 crash.merge(&c.crash);
                 execs += c.execs;
                 let mut hist = h.clone();
                 hist.push(oi as u16);
+                let mut lenient = *parent_lenient;
                 if let Some(f) = &c.fail {
                     // a violation listed in known_findings.json is recorded by `run` but
-                    // does not stop the search; the failing history is not extended
+                    // does not stop the search
                     let before = run.violation_count();
-                    run.violation(make_violation::<S>(part, x, &hist, f, ""));
-                    if run.violation_count() > before {
-                        out.violations += 1;
-                    } else {
+                    run.violation(make_violation::<S>(part, x, &hist, f, if lenient { PAST_KNOWN } else { "" }));
+                    let known = run.violation_count() == before;
+                    if known {
                         out.known_findings += 1;
+                    } else {
+                        out.violations += 1;
                     }
-                    continue;
+                    // the failing history is extended only when it failed with a recorded
+                    // finding AND agrees with the reference adjusted by exactly that finding
+                    let Some(retry) = c.retry.take().filter(|_| known) else {
+                        continue;
+                    };
+                    out.light_evals += retry.evals;
+                    crash.merge(&retry.crash);
+                    execs += retry.execs;
+                    if let Some(f2) = &retry.fail {
+                        let before = run.violation_count();
+                        run.violation(make_violation::<S>(part, x, &hist, f2, PAST_KNOWN));
+                        if run.violation_count() > before {
+                            out.violations += 1;
+                        } else {
+                            out.known_findings += 1;
+                        }
+                        continue;
+                    }
+                    c = *retry;
+                    lenient = true;
                 }
                 let fresh = seen.insert(c.key);
                 if fresh {
                     out.states += 1;
+                    if lenient {
+                        out.past_known_states += 1;
+                    }
                     if c.key != root_key {
                         run.distinct(c.key.0);
                     }
@@ -1045,9 +1097,9 @@ where
                     out.dedup_hits += 1;
                 }
                 let rank = reps.len();
-                reps.entry(c.model_key.clone()).or_insert_with(|| (rank, hist.clone()));
+                reps.entry(c.model_key.clone()).or_insert_with(|| (rank, hist.clone(), lenient));
                 if fresh || !x.dedup {
-                    frontier.push(hist);
+                    frontier.push((hist, lenient));
                 }
             }
         }
@@ -1071,7 +1123,7 @@ where
     if x.deep_depth > 0 && out.violations == 0 {
         // discovery (BFS) order: when the time cap cuts the phase short, the
         // states reached by the shortest histories have been checked
-        let mut items: Vec<(usize, Vec<u16>)> = reps.into_values().collect();
+        let mut items: Vec<(usize, Vec<u16>, bool)> = reps.into_values().collect();
         items.sort();
         let stop2 = AtomicBool::new(false);
         let t1 = Instant::now();
@@ -1079,7 +1131,7 @@ where
         // par_map pops from the back: reverse so that BFS order is served first
         let mut order = items.clone();
         order.reverse();
-        let mut results = util::par_map(order, util::n_threads(), |(_, h)| {
+        let mut results = util::par_map(order, util::n_threads(), |(_, h, lenient)| {
             if stop2.load(Ordering::Relaxed) {
                 return None;
             }
@@ -1090,7 +1142,7 @@ where
             let ops: Vec<&HOp<S::Op>> = h.iter().map(|i| &x.alphabet[*i as usize]).collect();
             let mut evals = 0u64;
             let r = (|| {
-                let live = run_ops::<S>(&x.cfg, &x.start, &ops).map_err(|f| f.prefixed("replayed-prefix:"))?;
+                let live = run_ops::<S>(&x.cfg, &x.start, &ops, lenient).map_err(|f| f.prefixed("replayed-prefix:"))?;
                 let (idx, model) = (&live.idx, &live.model);
                 guard("deep-battery", || S::deep_battery(idx, &x.cfg, model, x.deep_depth, &mut evals))
             })();
@@ -1098,7 +1150,7 @@ where
         });
         results.reverse();
         let mut skipped = 0;
-        for ((_, h), r) in items.iter().zip(results.into_iter()) {
+        for ((_, h, lenient), r) in items.iter().zip(results.into_iter()) {
             match r {
                 None => skipped += 1,
                 Some((ev, fail)) => {
@@ -1107,7 +1159,7 @@ where
                     execs += 1;
                     if let Some(f) = fail {
                         let before = run.violation_count();
-                        run.violation(make_violation::<S>(part, x, h, &f, "deep:"));
+                        run.violation(make_violation::<S>(part, x, h, &f, if *lenient { "past-known:deep:" } else { "deep:" }));
                         if run.violation_count() > before {
                             out.violations += 1;
                         } else {
@@ -1132,6 +1184,9 @@ fn finish_counts(run: &mut Run, out: &ExploreOut, crash: &CrashTally, execs: u64
     run.add("evaluations", out.light_evals + out.deep_evals);
     run.add("dedup_hits", out.dedup_hits);
     run.add("model_states_deep_checked", out.deep_states_checked as u64);
+    if out.past_known_states > 0 {
+        run.add("states_behind_recorded_findings", out.past_known_states);
+    }
     if crash.flushes_with_writes > 0 {
         run.add("crash_flushes", crash.flushes_with_writes);
         run.add("crash_prefixes", crash.prefixes);
@@ -1174,24 +1229,28 @@ pub fn replay<S: Sut>(run: &mut Run, part: &str, doc: &Value, mode_of: impl Fn()
         dedup: false,
         mode: mode_of(),
         deep_depth,
+        past_known: false,
     };
+    // a case found behind a recorded finding is replayed against the adjusted reference
+    let lenient = r["lenient"].as_bool().unwrap_or(false);
+    let phase = if lenient { PAST_KNOWN } else { "" };
     let idxs: Vec<u16> = (0..ops.len() as u16).collect();
     let mut execs = 0;
     for n in 0..=ops.len() {
         let refs: Vec<&HOp<S::Op>> = ops[..n].iter().collect();
-        let c = eval_candidate::<S>(&cfg, &start, &refs, &x.mode);
+        let c = eval_candidate::<S>(&cfg, &start, &refs, &x.mode, lenient);
         execs += c.execs;
         run.add("evaluations", c.evals);
         run.add("transitions", 1);
         if let Some(f) = &c.fail {
-            println!("replay: step {n}: {} — {}", f.kind, f.detail);
-            run.violation(make_violation::<S>(part, &x, &idxs[..n], f, ""));
+            println!("replay: step {n}: {phase}{} — {}", f.kind, f.detail);
+            run.violation(make_violation::<S>(part, &x, &idxs[..n], f, phase));
             break;
         }
         if deep_depth > 0 {
             let mut evals = 0u64;
             let r = (|| {
-                let live = run_ops::<S>(&cfg, &start, &refs)?;
+                let live = run_ops::<S>(&cfg, &start, &refs, lenient)?;
                 let (idx, model) = (&live.idx, &live.model);
                 guard("deep-battery", || S::deep_battery(idx, &cfg, model, deep_depth, &mut evals))
             })();
@@ -1199,7 +1258,7 @@ pub fn replay<S: Sut>(run: &mut Run, part: &str, doc: &Value, mode_of: impl Fn()
             execs += 1;
             if let Err(f) = r {
                 println!("replay: step {n}: deep:{} — {}", f.kind, f.detail);
-                run.violation(make_violation::<S>(part, &x, &idxs[..n], &f, "deep:"));
+                run.violation(make_violation::<S>(part, &x, &idxs[..n], &f, if lenient { "past-known:deep:" } else { "deep:" }));
                 break;
             }
         }
